@@ -78,7 +78,7 @@ class AGRun:
                 self.need, self.need_p = e.n, e.p
             except NeedTargetErr:
                 self.need = -1
-            except TimeoutError:
+            except (TimeoutError, fw.Timeout):
                 self.timed_out = True
             except Exception as e:  # noqa
                 self.error = e
@@ -273,6 +273,6 @@ def explore(sag, forced, max_leaves=400, timeout=30):
                     stack.append(script + [k])
         else:
             leaves.append((script, r))
-            if len(leaves) >= max_leaves:
+            if len(leaves) >= max_leaves or sum(1 for _, x in leaves if x.timed_out) >= 3:
                 return leaves, True
     return leaves, False
